@@ -1,0 +1,22 @@
+//go:build verif
+
+package parentpb
+
+import (
+	"github.com/smart-core-os/sc-api/go/traits"
+	"github.com/smart-core-os/sc-golang/pkg/trait"
+)
+
+// Exported aliases of the unexported sorted-slice helpers, compiled only with the `verif` build tag.
+// They let the verification harness in /verif compare traitUnion/traitRemove with finite-set union and
+// difference directly. Nothing here changes behaviour; without the tag this file is not compiled.
+
+// VerifTraitUnion is traitUnion.
+func VerifTraitUnion(has []*traits.Trait, more ...trait.Name) []*traits.Trait {
+	return traitUnion(has, more...)
+}
+
+// VerifTraitRemove is traitRemove.
+func VerifTraitRemove(has []*traits.Trait, remove ...trait.Name) []*traits.Trait {
+	return traitRemove(has, remove...)
+}
